@@ -12,7 +12,7 @@ MIN_CASES = {"quick": 800, "thorough": 8000}
 RULE = ("Hypothesis draws a Hermitian operator (real symmetric / complex Hermitian, definite / indefinite, simple, repeated and "
         "tightly clustered spectra, n 1..40 quick / ..300 thorough; dense, or structured: Diagonal, Identity, ScalarMul, "
         "Kronecker of Hermitians), a start vector (generic / an eigenvector / a sum of g eigenvectors / batched (n,b)), "
-        "max_iters in 1..n+5 and tol in [1e-12,1e-3]. Oracle (validity predicates against the dense matrix M): Q^H Q = I; "
+        "max_iters in 1..n+5 and tol in [1e-12,1e-3]; start vectors are rescaled by 10^-30..10^12 (the factorisation depends on v/|v| only). Oracle (validity predicates against the dense matrix M): Q^H Q = I; "
         "Q[:,0] = v/|v|; T real symmetric tridiagonal with off-diagonal >= 0 and T = Q^H M Q; M Q - Q T vanishes outside the "
         "last column; the first j columns span K_j(M,v); cols <= min(max_iters,n); when the Krylov space is exhausted "
         "(max_iters >= grade g, tol above rounding) cols == g and eig(T) is a sub-multiset of eig(M); lanczos_eigs ascending "
@@ -44,7 +44,8 @@ def cases(draw, tier):
             "spec": draw(st.sampled_from(["simple", "indefinite", "repeated", "clustered", "singular"])), "cstart": draw(st.integers(1, 5)) == 1,
             "seed": draw(st.integers(0, 10**6)), "start": draw(st.sampled_from(["generic", "generic", "eigvec", "grade"])),
             "g": draw(st.integers(1, n)), "max_iters": draw(st.integers(1, n + 5)), "tol_exp": draw(st.sampled_from([-12, -10, -8, -6, -3])),
-            "batch": draw(st.integers(2, 3)), "mixed": draw(st.booleans())}
+            "batch": draw(st.integers(2, 3)), "mixed": draw(st.booleans()),
+            "vscale_exp": draw(st.sampled_from([0, 0, 0, 0, -20, -12, -30, 6, 12]))}
 
 
 def strategy(tier):
@@ -110,7 +111,8 @@ def build(case):
         v = v.astype(M.dtype)
         if case.get("cstart") and not np.iscomplexobj(M) and case["sub"] != "batched":
             v = v.astype(np.complex128) * (1 + 0.5j) + 1j * rng.standard_normal(n) * (case["start"] == "generic")
-        vs.append(v)
+        # the factorisation depends on v only through v / |v|: start vectors of any magnitude
+        vs.append(v * 10.0 ** case.get("vscale_exp", 0))
     return A, M, vs
 
 
@@ -275,6 +277,27 @@ def check(case, out):
             # the batched members must still be finite
             if not (np.all(np.isfinite(Qd)) and np.all(np.isfinite(Td))):
                 out.fail(sub, site, "nonfinite", "batched Q/T contain non-finite entries")
+                return
+            # every member is its own factorisation: its columns are unit vectors or zero padding (a member that is
+            # exhausted while others continue), the non-zero ones orthonormal, and T = Q^H M Q on them
+            for j in range(len(vs)):
+                nrm = np.linalg.norm(Qd[j], axis=0)
+                nz = nrm > 0
+                if np.any(np.abs(nrm[nz] - 1) > 1e-8):
+                    out.fail(sub, site, "batched_column_norm", f"member {j}: column norms {nrm[nz][np.abs(nrm[nz] - 1) > 1e-8][:4]}")
+                    return
+                Qn = Qd[j][:, nz]
+                e = np.abs(Qn.conj().T @ Qn - np.eye(Qn.shape[1])).max(initial=0)
+                if e > 1e-8:
+                    out.fail(sub, site, "batched_not_orthonormal", f"member {j} (grade {grades[j]}, {int(nz.sum())} non-zero columns): |Q^H Q - I| = {e:.3e}")
+                    return
+                k = int(nz.sum())
+                if np.all(nz[:k]) and k >= 1:
+                    P = Qn.conj().T @ M @ Qn
+                    e = np.abs(P - Td[j][:k, :k]).max()
+                    if e > 1e3 * max(1e-10, 10 * tol) * scale:
+                        out.fail(sub, site, "batched_T_not_projection", f"member {j}: |Q^H M Q - T| = {e:.3e} over its {k} non-zero columns")
+                        return
             return
         for j, vv in enumerate(vs):
             Qj, Tj, _ = lanczos(A, vv.copy(), max_iters=mi, tol=tol)
